@@ -173,7 +173,8 @@ class Route(Generic[Interface]):
             pattern += f"(?P<{name}>{self.path_convertors[name].regex})"
             idx = match.end()
         pattern += re.escape(path[idx:])
-        self.re_pattern = re.compile(pattern)
+        # "any" must match every character, line breaks included
+        self.re_pattern = re.compile(pattern, re.DOTALL)
         self.endpoint: Interface = endpoint
 
     def matches(self, path: str) -> Tuple[bool, Dict[str, Any]]:
